@@ -131,14 +131,23 @@ impl Decoder for Socks5UdpCodec {
         if src.is_empty() {
             return Ok(None);
         }
+        // UdpFramed decodes the same buffer again after an error: a refused datagram has to be taken out of it
         if src.remaining() < 5 {
+            src.clear();
             bail!("Insufficient length of packet");
         }
         if src[2] != 0 {
+            src.clear();
             bail!("Discarding fragmented payload");
         }
         src.advance(3);
-        let recipient = address::decode(src)?;
+        let recipient = match address::decode(src) {
+            Ok(recipient) => recipient,
+            Err(e) => {
+                src.clear();
+                return Err(e);
+            }
+        };
         Ok(Some((src.split_off(0), recipient)))
     }
 }
